@@ -346,10 +346,14 @@ func checkXmlInput(doc []byte, class, origin string, a *Acc, rc interface{}) int
 					ms := mxj.MapSeq(m)
 					ms.Xml()
 					ms.XmlIndent("", " ")
+					ms.XmlIndent(" ", "  ") // (a line prefix shorter than the indent unit, and a tab before blanks)
+					ms.XmlIndent("\t", "    ")
 				} else {
 					mv := mxj.Map(m)
 					mv.Xml()
 					mv.XmlIndent("", " ")
+					mv.XmlIndent(" ", "  ")
+					mv.XmlIndent("\t", "    ")
 					mv.Json()
 				}
 			}); p != "" {
@@ -364,6 +368,7 @@ func checkXmlInput(doc []byte, class, origin string, a *Acc, rc interface{}) int
 		mxj.HandleXmlReader(bytes.NewReader(doc), func(mxj.Map) bool { cnt++; return cnt < 5 }, func(error) bool { return false })
 		mxj.HandleXmlReaderRaw(bytes.NewReader(doc), func(mxj.Map, []byte) bool { cnt++; return cnt < 10 }, func(error, []byte) bool { return false })
 		mxj.BeautifyXml(doc, "", " ")
+		mxj.BeautifyXml(doc, " ", "  ") // (a line prefix shorter than the indent unit)
 	}); p != "" {
 		a.Mis("tok:panic:handlers", fmt.Sprintf("HandleXmlReader[Raw]/BeautifyXml on %q: %s", doc, p), rc)
 	}
